@@ -1,10 +1,10 @@
 ---- MODULE LimitsScen ----
-(* Scenario generator for C62: head size relative to the limit, where the excess sits ("both": half of the bytes in the
-   first line, half in the fields, neither part alone reaches the limit), how the bytes arrive. *)
+(* Scenario generator for C62: head size relative to the limit, where the excess sits ("both": a first line of about 3.5 KB - or half
+   the limit if that is less - and the rest in a field: neither part alone reaches the limit), how the bytes arrive. *)
 EXTENDS Naturals, Integers, TLC, Json
 VARIABLES par, pred
 vars == <<par, pred>>
-Init == /\ par \in [dir : {"req", "resp"}, limit : {4096, 65536}, delta : {0 - 2000, 0 - 600, 0 - 2, 0, 2, 100, 5000, 70000},
+Init == /\ par \in [dir : {"req", "resp"}, limit : {4096, 8192, 65536}, delta : {0 - 2000, 0 - 600, 0 - 2, 0, 2, 100, 2000, 5000, 70000},
                     where : {"line", "onefield", "manyfields", "both"}, arrival : {"oneshot", "chunks", "splitAtLimit"}]
         /\ (par.dir = "resp" => par.where \notin {"line", "both"})
         /\ pred = "?"
